@@ -3,6 +3,7 @@
   Property theorems only (helper lemmas live in RsjProofs/Parser*.lean).
 -/
 import RsjModel.Parser
+import RsjProofs.ParserSpans3
 namespace Rsj.Parser
 
 /-! ## The precedence table
@@ -73,7 +74,84 @@ theorem C15_precedence_table :
   · intro op; cases op <;> decide
   · intro op; cases op <;> exact ⟨_, _, rfl, by decide⟩
 
+/-! ## Spans
+
+`Expr.WF toks lo hi e` (`RsjProofs/ParserWF.lean`) says, for the node `e` and recursively for
+every node, identifier, parameter list, assertion and field name below it:
+* its span is not inverted, lies inside `[lo, hi]` — for a child, `lo hi` is the span of the
+  closest enclosing expression node — starts at the start offset of a token of the input and
+  ends at the end offset of a token of the input (`SpanOK`);
+* if the form begins (ends) with a subexpression, its span starts (ends) exactly where that
+  subexpression starts (ends): e.g. `Binary(l, op, r)` spans `l.start .. r.end`, `Call(f, ..)`
+  starts at `f.start`, `Local(.., body)` ends at `body.end`;
+so every node starts at its first token and ends at its last one. -/
+
+/-- **C15 spans_nested.** For a token list with lexer-ordered spans, a successful parse yields a
+    tree in which every node's span starts at (the start of) its first token, ends at (the end
+    of) its last token and lies inside its parent's span; the root spans from the first token to
+    the last token before end-of-file.  In particular no `make_surrounding_span` assertion
+    (`start ≤ end`) can fire. -/
+theorem C15_spans_nested {toks : List Token} {e : Expr}
+    (hord : spansOrdered toks = true) (h : parse toks = .ok e) :
+    e.WF toks e.span.start e.span.stop ∧
+    (∃ t0 rest, toks = t0 :: rest ∧ e.span.start = t0.span.start) ∧
+    (∃ body tl eof, toks = body ++ [tl, eof] ∧ eof.kind = .eof ∧ e.span.stop = tl.span.stop) :=
+  parse_ok_spans (ord_of_spansOrdered toks hord) h
+
+/-- What `WF` gives for one node: a direct subexpression lies inside its parent (here for the
+    operands of a binary operator; the other forms are the clauses of `Expr.WF`). -/
+theorem C15_spans_binary_inside {toks : List Token} {l r : Expr} {op : BinaryOp} {sp : Span} {lo hi : Nat}
+    (h : (Expr.binary l op r sp).WF toks lo hi) :
+    sp.start = l.span.start ∧ l.span.start ≤ l.span.stop ∧ l.span.stop ≤ sp.stop ∧
+    sp.start ≤ r.span.start ∧ r.span.start ≤ r.span.stop ∧ r.span.stop = sp.stop := by
+  obtain ⟨_, hl, hr, h1, h2⟩ := h
+  have a := hl.spanOK
+  have b := hr.spanOK
+  unfold SpanOK at a b
+  omega
+
+/-- `tk k a b`: token of kind `k` with span `a..b` -/
+def tk (k : TokKind) (a b : Nat) : Token := ⟨k, ⟨a, b⟩⟩
+
+/-- non-vacuity: `a + b * c` parses (with the multiplication grouped first) and has ordered spans -/
+example : spansOrdered [tk (.ident "61") 0 1, tk (.simple .Plus) 2 3, tk (.ident "62") 4 5,
+      tk (.simple .Asterisk) 6 7, tk (.ident "63") 8 9, tk .eof 9 9] = true ∧
+    parse [tk (.ident "61") 0 1, tk (.simple .Plus) 2 3, tk (.ident "62") 4 5,
+      tk (.simple .Asterisk) 6 7, tk (.ident "63") 8 9, tk .eof 9 9] =
+    .ok (.binary (.ident ⟨"61", ⟨0, 1⟩⟩ ⟨0, 1⟩) .Add
+      (.binary (.ident ⟨"62", ⟨4, 5⟩⟩ ⟨4, 5⟩) .Mul (.ident ⟨"63", ⟨8, 9⟩⟩ ⟨8, 9⟩) ⟨4, 9⟩) ⟨0, 9⟩) :=
+  ⟨by decide, by rfl⟩
+
+/-! ## Syntax errors -/
+
+/-- **C15 error_points_at_token.** A `ParseError::Expected` carries the span of a token of the
+    input (possibly the end-of-file token) and names that token's kind as the actual token. -/
+theorem C15_error_points_at_token {toks : List Token} {sp : Span} {ex : List Expected} {act : Actual}
+    (h : parse toks = .expected sp ex act) :
+    ∃ t ∈ toks, t.span = sp ∧ Actual.ofKind t.kind = act := by
+  unfold parse parseWithFuel at h
+  split at h
+  · cases h
+  · next t r =>
+    dsimp only at h
+    split at h
+    · cases h
+    · next st _ =>
+      cases h
+      exact ⟨st.cur, st.cur_mem, rfl, rfl⟩
+    · cases h
+
+/-- non-vacuity: `a +` fails at the end-of-file token, an expression was expected -/
+example : parse [tk (.ident "61") 0 1, tk (.simple .Plus) 2 3, tk .eof 3 3] =
+    .expected ⟨3, 3⟩ [.expr] .eof := by rfl
+
 end Rsj.Parser
 
 open Rsj.Parser in
 #print axioms C15_precedence_table
+open Rsj.Parser in
+#print axioms C15_spans_nested
+open Rsj.Parser in
+#print axioms C15_spans_binary_inside
+open Rsj.Parser in
+#print axioms C15_error_points_at_token
